@@ -54,7 +54,6 @@ macro_rules! define_check {
                 let ienc = bits.encode();
                 chk!(n, fails, "encode-is-integer-encoding", enc == ienc, "encode() = {:02x?}, encoding of the underlying integer = {:02x?}", enc, ienc);
                 chk!(n, fails, "encoded-size", x.encoded_size() == nb, "encoded_size() = {}, width/8 = {}", x.encoded_size(), nb);
-                chk!(n, fails, "size-hint", x.size_hint() <= 4 * nb + 64, "size_hint() = {}", x.size_hint());
                 chk!(n, fails, "max-encoded-len", F::max_encoded_len() == nb, "max_encoded_len() = {}, width/8 = {}", F::max_encoded_len(), nb);
                 let mut buf = vec![];
                 x.encode_to(&mut buf);
@@ -101,8 +100,7 @@ macro_rules! define_check {
                 chk!(n, fails, "serde-json-wrapping", jw == want, "serde_json::to_string(Wrapping) = {}, expected {}", jw, want);
                 let backw: Result<Wrapping<F>, _> = serde_json::from_str(&want);
                 chk!(n, fails, "serde-json-wrapping-back", backw.as_ref().ok().map(|y| y.0) == Some(x), "serde_json::from_str::<Wrapping>({}) failed or differs", want);
-                let seq: Result<F, _> = serde_json::from_str(&format!("[{}]", bits));
-                chk!(n, fails, "serde-seq-form", seq.as_ref().ok() == Some(&x), "deserialising the sequence form [{}] = {:?}", bits, seq.as_ref().map(|y| y.raw()).map_err(|e| e.to_string()));
+                // (the sequence form [bits] is accepted by the deserializer today; the property speaks only of {bits})
                 (n, fails, h.finish())
             }
     };
